@@ -95,6 +95,7 @@ pub fn run(args: &[String]) {
         "cksub" => ck::campaign(seed, &tier, args.get(3).map(|s| s.as_str())),
         "ckmitm" => ck::mitm(seed, &tier),
         "tree" => tree::run(seed, &tier),
+        "treeobs" => tree::observe_file(args.get(3).map(|s| s.as_str())),
         "rt" => rt::run(seed, &tier, args.get(3).map(|s| s.as_str())),
         other => {
             eprintln!("unknown text mode {}", other);
